@@ -262,6 +262,17 @@ pub fn run(ctx: &Ctx, model: &mut Model, rep: &mut Report) {
             None => rep.resolved_findings.push(json!({"id": f.id, "what": f.what})),
         }
     }
+    // hints around every place where a count is formatted: exactly n notes include one target (`⎘`, `⎘²` … `⎘⁹`, `⎘+`)
+    // and n blocks link to it inline (`‹n›`) — model vs implementation, label for label
+    for n in [1usize, 2, 3, 9, 10, 11, 12] {
+        let mut import = vec![("t".to_string(), "# Target\n".to_string())];
+        for i in 0..n {
+            import.push((format!("s{:02}", i), format!("# S{}\n\n[t](t)\n\nsee [t](t) here\n", i)));
+        }
+        let h = History { ext: String::new(), import, steps: vec![] };
+        hints_correspondence(model, rep, &h);
+        rep.count("hints_count_ladder");
+    }
     let known_open = open_ids.contains(&"D12".to_string()) || open_ids.contains(&"D22".to_string());
     let n = if ctx.thorough { 5000 } else { 1200 };
     for i in 0..n {
